@@ -53,7 +53,8 @@ fn main() {
     let seed = std::env::var("VERIF_SEED").ok().and_then(|s| s.trim().parse::<u64>().ok()).unwrap_or(20261004);
     let workers = std::env::var("VERIF_WORKERS").ok().and_then(|s| s.parse().ok()).unwrap_or(16usize).max(1);
     let runs_override = std::env::var("VERIF_RUNS").ok().and_then(|s| s.parse().ok());
-    let env = Arc::new(Env { dir, seed, workers, runs_override, out: Mutex::new(real_out) });
+    let out_dir = std::env::var("VERIF_OUT").unwrap_or_else(|_| dir.clone());
+    let env = Arc::new(Env { dir, out_dir, seed, workers, runs_override, out: Mutex::new(real_out) });
     let code = match args.get(1).map(|s| s.as_str()) {
         Some("check") => {
             let id = args.get(2).cloned().unwrap_or_default();
